@@ -58,7 +58,13 @@ class HelperSpec(PureLibMixin, BaseSpec):
             n = fresh("len", I_)
             st.assume(n >= 0)
             return vint(n)
-        I.raise_(TypeError, origin=("len(obj)",))
+        # __len__ of a user object may raise anything (TypeError when absent, OverflowError for huge sizes, ...)
+        c = fresh("exc_cls", I_)
+        ex = bcls(Exception)
+        st.mention(ex, target=True)
+        st.symcls.append(c)
+        st.assume(issub(c, ex.cid))
+        raise PyRaise(O.HExc(c, origin=("assumed", "len(obj)")))
 
 
 def orch_self(I):
